@@ -55,6 +55,11 @@ def run(ctx):
             ml = rng.choice([0, 0, 0, 1 << 20, 200000, 1])
             flags = LZMA_CONCATENATED | rng.choice([0, 0, 0x20])      # FAIL_FAST sometimes
             lines.append('dec 1 %d %d %d %d %s' % (flags, mode, seed, ml, f.hex())); meta.append((fi, flags, seed, mode, ml))
+        # the same after the handle was used for part of this file and re-initialised without lzma_end
+        for sd in range(1, (4 if ctx.quick() else 20)):
+            seed = rng.randrange(1 << 20) * 8 + sd
+            mode = rng.choice([0, 2, 3, 3]) if len(f) < 8000 else rng.choice([0, 3])
+            lines.append('dec 1 %d %d %d 0 %s' % (LZMA_CONCATENATED, mode + 16, seed, f.hex())); meta.append((fi, LZMA_CONCATENATED, seed, mode + 16, 0))
     outs = [None] * len(lines); fails = []
     # several scheduler seeds: one process group per seed
     for ss in range(1, 5):
